@@ -28,10 +28,12 @@ Theorem C03_counters_untouched : forall q blanks AND c s l,
   match_count mx (fst (eval q blanks AND c s l)) = match_count mx s /\ scan_count mx (fst (eval q blanks AND c s l)) = scan_count mx s /\
   pln mx (fst (eval q blanks AND c s l)) = pln mx s.
 Proof. intros. destruct (eval_keeps q blanks AND c s l) as (_ & H1 & H2 & _ & H3). auto. Qed.
+Print Assumptions C03_counters_untouched.
 Theorem C03_counter_functions : forall blanks s l,
   neval blanks s l NLineNo = (pln mx s, 1) /\ neval blanks s l NCountScans = (scan_count mx s, 1) /\
   neval blanks s l NCountLines = (Z.of_nat (length (filter negb (firstn (Z.to_nat (pln mx s + 1)) blanks))), 1).
 Proof. intros. repeat split. Qed.
+Print Assumptions C03_counter_functions.
 
 (** push appends, pop removes exactly the top (clean model); D4 (fixed in /repo): pop dropped two *)
 Theorem C03_pop_drops_two_refuted :
@@ -39,10 +41,12 @@ Theorem C03_pop_drops_two_refuted :
   lookup 1 (stacks (x mx (do_action (mkQ false false true) [] true s [] (Pop 9 1)))) = Some [VI 1] /\
   lookup 1 (stacks (x mx (do_action clean [] true s [] (Pop 9 1)))) = Some [VI 1; VI 2].
 Proof. exact pop_drops_two_refuted. Qed.
+Print Assumptions C03_pop_drops_two_refuted.
 
 (** count() is the number of matches so far plus this line *)
 Theorem C03_count_function : forall blanks s l, neval blanks s l NCount = (match_count mx s + 1, 1).
 Proof. reflexivity. Qed.
+Print Assumptions C03_count_function.
 
 (** first(): a first sighting records this line and votes; a later sighting changes nothing and does not vote *)
 Theorem C03_first_step : forall blanks AND s l nm i,
@@ -73,28 +77,33 @@ Theorem C03_tally_step : forall blanks AND s l i,
   (forall d' key', d <> d' -> dget m' d' key' = dget (x mx s) d' key') /\
   vars m' = vars (x mx s) /\ stacks m' = stacks (x mx s) /\ snd (do_agg blanks AND s l (Tally i)) = true.
 Proof. exact tally_step. Qed.
+Print Assumptions C03_tally_step.
 Theorem C03_every_step : forall blanks AND s l nm i n,
   let key := hdr_key l i in let r := do_agg blanks AND s l (Every nm i n) in
   dget (x mx (fst r)) nm key = Some (VI (num_of (dget (x mx s) nm key) + 1)) /\
   snd r = ((num_of (dget (x mx s) nm key) + 1) mod n =? 0) /\
   (forall key', key <> key' -> dget (x mx (fst r)) nm key' = dget (x mx s) nm key').
 Proof. exact every_step. Qed.
+Print Assumptions C03_every_step.
 Theorem C03_counter_step : forall blanks AND s l nm k,
   let r := do_agg blanks AND s l (Counter nm k) in
   lookup nm (vars (x mx (fst r))) = Some (VI (num_of (lookup nm (vars (x mx s))) + k)) /\
   (forall v, nm <> v -> lookup v (vars (x mx (fst r))) = lookup v (vars (x mx s))) /\
   dicts (x mx (fst r)) = dicts (x mx s) /\ stacks (x mx (fst r)) = stacks (x mx s).
 Proof. exact counter_step. Qed.
+Print Assumptions C03_counter_step.
 Theorem C03_sum_step : forall blanks AND s l nm e,
   let r := do_agg blanks AND s l (Sum nm e) in
   lookup nm (vars (x mx (fst r))) = Some (VF (num_of (lookup nm (vars (x mx s))) + fst (neval blanks s l e))) /\
   (forall v, nm <> v -> lookup v (vars (x mx (fst r))) = lookup v (vars (x mx s))).
 Proof. exact sum_step. Qed.
+Print Assumptions C03_sum_step.
 Theorem C03_subtotal_step : forall blanks AND s l nm i e,
   let key := hdr_key l i in let r := do_agg blanks AND s l (Subtotal nm i e) in
   dget (x mx (fst r)) nm key = Some (VF (num_of (dget (x mx s) nm key) + fst (neval blanks s l e))) /\
   (forall key', key <> key' -> dget (x mx (fst r)) nm key' = dget (x mx s) nm key').
 Proof. exact subtotal_step. Qed.
+Print Assumptions C03_subtotal_step.
 Theorem C03_assign_key_step : forall blanks AND s l nm key e,
   let r := do_agg blanks AND s l (AssignK nm key e) in
   dget (x mx (fst r)) nm key = Some (nvalue blanks s l e) /\
